@@ -365,11 +365,12 @@ LitIs(obj, key, texts) ==
 
 CommandHolders == {"originatingCommand", "cmd", "command"}
 
-\* line.attr.ns carries rel \in {"eq","prefix","other"}: its relation to the --redactFieldNames value
+\* the class of the attr.ns string says how it relates to the --redactFieldNames value: "nseq" equal, "nsprefix"
+\* the value is a proper prefix of it, anything else: no relation
 LineIsEager(c, attr) ==
   /\ c.eagerOn
   /\ HasKey(attr, "ns") /\ IsStr(GetKey(attr, "ns"))
-  /\ GetKey(attr, "ns").rel \in {"eq", "prefix"}
+  /\ GetKey(attr, "ns").cls \in {"nseq", "nsprefix"}
 
 RedactMongoLog(c, line) ==
   IF ~HasKey(line, "attr") \/ GetKey(line, "attr").t # "obj" THEN line
